@@ -67,12 +67,20 @@ example : (runUpdate opsW SW Gen.Param.kAllMatch false (zeroStruct SW) [] [] [([
 example : (entryMap SW).map (·.1) = [[101], [105], [105, 105], [111], [115], [117]] := by decide
 
 -- hypotheses of the dictionary / JSON theorems are satisfiable: the dictionary of an initialised struct exists,
--- and the map reader returns what the map writer was given (also with characters that need escaping)
+-- and dictionaries are key-sorted maps (the hypothesis of `C17_json_map_roundtrip`)
 example : (match dict opsW SW (runInit opsW SW Gen.Param.kAllowHidden false (zeroStruct SW) [([115], [120])]).st with
     | .ok kvs => kvs.length | .error _ => 0) = 6 := by decide
-example : jsonReadMap (jsonWriteMap [([105], [53]), ([115], [120, 34, 92, 10])]) = some [([105], [53]), ([115], [120, 34, 92, 10])] := by
-  decide
-example : jsonReadMap (jsonWriteMap [([105], [])]) = some [([105], [])] := by decide
-example : jsonReadMap (jsonWriteMap []) = some [] := by decide
+example : incK (([([105], [53]), ([115], [120, 34, 92, 10])] : List KV).map (·.1)) := by
+  simp [incK, chainK, bytesLt]
+example : incK ((entryMap SW).map (·.1)) := entryMap_incK SW
+-- the saved text of the empty map and of a one-entry map, as json.h writes them
+example : jsonWriteMap [] = some [123, 125] := by decide
+example : jsonWriteMap [([105], [53])] = some [123, 34, 105, 34, 58, 32, 34, 53, 34, 125] := by decide
+
+-- `PrintedDecimal` is satisfiable: "0.5" and "1.25e-07" are decimal lexemes within the limits
+example : PrintedDecimal .F32 [48, 46, 53] ⟨false, [0], true, [5], none⟩ :=
+  ⟨by decide, by decide +kernel, by decide, Or.inl (by decide), fun _ _ h => by cases h⟩
+example : StrToNum.scanNum ([49, 46, 50, 53, 101, 45, 48, 55] ++ [0]) =
+    some (.dec ⟨false, [1], true, [2, 5], some (true, [0, 7])⟩, 8) := by decide +kernel
 
 end DmlcModel.Props.C17
